@@ -423,10 +423,10 @@ def run(prog, rep):
         for a in det.walk(then):
             if a['k'] == 'BinaryOperator' and a.get('op') == '=':
                 lhs, rhs = strip(a['c'][0]), strip(a['c'][1])
-                if lhs.get('n') == 'out_dataOffset':
+                if lhs.get('d') == det.params[1]['d']:                      # the data-offset out parameter
                     off = rhs.get('cv')
                     offm = trait_mentions(det, [a['c'][1]])
-                elif lhs.get('n') == 'utfType':
+                elif lhs['k'] == 'DeclRefExpr' and base_type(det.type(lhs)) == ENUM:   # the detected-encoding local
                     enc = byval.get(rhs.get('cv'))
         chain.append((trait, off, enc, det.loc(n), offm if off is not None else set()))
     if len(chain) < 5:
